@@ -3,6 +3,7 @@ import random
 from vlib import common as C
 from vlib.framework import Corr
 from harness import layoutlib as L
+from harness import bigalloc as BIG
 
 META = {
     "drivers": ["driver"],
@@ -65,7 +66,7 @@ def gen(ctx):
     return idx, rw
 
 
-def evaluate(ctx, idx_cases, rw_cases, cfgs):
+def evaluate(ctx, idx_cases, rw_cases, cfgs, big=False):
     corr = Corr()
     variants = sorted({(c[1], c[2]) for c in rw_cases})
     exes = L.build(ctx, cfgs, what=("layout", "rw") if rw_cases else ("layout",), rw_variants=variants)
@@ -174,6 +175,8 @@ def evaluate(ctx, idx_cases, rw_cases, cfgs):
                     corr.violation("array_rw", f"array<{'float' if t == 0 else 'double'}1, uint{b}_t> of {n} cells: {o}",
                                    {"op": "arrix", "bits": b, "n": n, "ct": ct, "t": t, "cfg": cfg}, impl=o, model=f"ok {n} {n}",
                                    oracle_fails=True, key={"kind": "arrix", "bits": b, "n": n}, cfg=cfg)
+    if big:   # fields too large to allocate: what each layer asks the allocator for
+        BIG.run(ctx, corr, "storage_len_ge", ["strided", "stridedC", "mortonT", "mortonF", "hilbert"], 12 if ctx.quick else 150)
     # smallest failing boxes first: the replay is the minimal case found
     corr.violations.sort(key=lambda v: (not v["oracle_fails"], L.prod(v["case"].get("sz", [1])), sum(v["case"].get("co", [0]))))
     return corr
@@ -182,12 +185,14 @@ def evaluate(ctx, idx_cases, rw_cases, cfgs):
 def run(ctx):
     idx, rw = gen(ctx)
     cfgs = ["dbg", "bmi2", "relbmi2"] if ctx.quick else ["dbg", "bmi2", "rel", "relbmi2"]
-    return evaluate(ctx, idx, rw, cfgs)
+    return evaluate(ctx, idx, rw, cfgs, big=True)
 
 
 def replay(ctx):
     c = ctx.replay["case"]
     cfg = [c.get("cfg", "dbg")]
+    if "bigalloc" in c:
+        return evaluate(ctx, [], [], [], big=True)
     if c["op"] == "rw":
         return evaluate(ctx, [], [(c["lay"], c["ct"], c["t"], c["N"], c["M"], c["sz"])], cfg)
     if c["op"] == "arrix":     # the fixed narrow-index list runs with every rw variant: one tiny rw case selects the variant
